@@ -34,7 +34,8 @@ ASSUMPTIONS = [
     "CPython with a GIL: switches happen only between bytecodes",
     "reference = brute-force avoider sets on plain tuples (ref/classes.py)",
 ]
-EXPECTED_PROBES = ["preempt_while_lock_held", "contended_acquire", "lock_handoff", "prehistory", "mesh_basis",
+EXPECTED_PROBES = ["preempt_right_after_shared_state_change", "threads_create_class_from_shared_pattern_objects",
+                   "preempt_while_lock_held", "contended_acquire", "lock_handoff", "prehistory", "mesh_basis",
                    "own_handle", "clear_cache_thread", "live_iterator_across_queries"]
 
 _STATE = {"installed": False, "registry": [], "last_steps": 0}
@@ -177,19 +178,32 @@ def cases(rng, tier):
 
 
 def _watch_shared(pm, shared):
-    """(structural, fine) fingerprint of what the threads share: the number of levels of the
-    shared class object and which list holds them / the number of class objects; the sizes
-    of the three newest levels."""
+    """(structural, fine) fingerprint of what the threads share.  Structural: the number of
+    levels of the shared class object and which list holds them, and the sizes of every
+    process-wide container of the permuta modules (class registry, per-class tables a change
+    may have added ...).  Fine: the sizes of the three newest levels."""
+    from sim import histsim  # pylint: disable=import-outside-toplevel
+
+    slots = []
+    for owner, name in histsim._container_slots(histsim.permuta_modules()):  # pylint: disable=protected-access
+        if name.startswith("__"):
+            continue
+        val = vars(owner).get(name)
+        if isinstance(val, (dict, list, set)):
+            slots.append((vars(owner), name))
+
     def watch():
         cache = getattr(shared, "cache", None)
-        reg = getattr(pm.Av, "_CLASS_CACHE", None)
-        nreg = len(reg) if hasattr(reg, "__len__") else 0
+        glob = 0
+        for ns, name in slots:
+            c = ns.get(name)
+            glob = glob * 31 + (len(c) if hasattr(c, "__len__") else 0)
         if not isinstance(cache, list):
-            return ((nreg,), ())
+            return ((glob,), ())
         fine = 0
         for lvl in cache[-3:]:
             fine = fine * 1000003 + (len(lvl) if hasattr(lvl, "__len__") else 0)
-        return ((len(cache), id(cache), nreg), fine)
+        return ((len(cache), id(cache), glob), fine)
     return watch
 
 
